@@ -10,7 +10,7 @@ from ptstat import AnalysisError
 from ptstat.symval import SymObj, Phi, SymRaise
 from ptstat.world import World
 from spec import notation
-from .common import eq, fsite, raises, folder, _s
+from .common import eq, fsite, raises, folder, _s, table_data
 from .C03 import _r4
 from .C06 import fr, close
 
@@ -270,7 +270,7 @@ def _lint(ctx, F):
     bad = [r[0] for r in rowsI if len(r) != 4 or r[0] not in keys]
     ctx.check(not bad, "R4", "every imaginary-table row has 4 fields and refers to a nuclide of the main table", f"{bad}", site,
               sample={"rows": len(rowsI)})
-    ed = F.const("nsf_tables", "ENERGY_DEPENDENT_TABLES")
+    ed = table_data(ctx, "nsf_tables", "ENERGY_DEPENDENT_TABLES")
     bad = []
     for (sym, A), vals in ed.items():
         z = [k for k, v in sym_of.items() if v == sym]
